@@ -215,6 +215,14 @@ func regStd() {
 		// no element of a split contains the (non-empty) separator
 		qi := &Term{Op: "qi", S: SInt}
 		st.Fact(Implies(Gt(StrLen(sep), IntLit(0)), quant("forall", "qi", Implies(And(Le(IntLit(0), qi), Lt(qi, ln)), Not(Builtin("str.contains", SBool, sel(arr, qi), sep))))))
+		// Join(Split(s, sep), sep) == s, spelled out for the short lists the library parses
+		for n := 2; n <= 4; n++ {
+			parts := []*Term{Select(arr, IntLit(0))}
+			for k := 1; k < n; k++ {
+				parts = append(parts, sep, Select(arr, IntLit(int64(k))))
+			}
+			st.Fact(Implies(Eq(ln, IntLit(int64(n))), Eq(s, StrCat(parts...))))
+		}
 		return one(st, ex.newSymSlice(st, arr, ln, types.Typ[types.String]))
 	})
 	regEnv("(*golang.org/x/oauth2.Config).AuthCodeURL", "oauth2 Config.AuthCodeURL(state): uninterpreted function of (config, state)", func(ex *Executor, st *State, c *callCtx) []callResult {
